@@ -76,7 +76,7 @@ class Check(PropertyCheck):
     run_expr = "run_codec_case"
     case_type = "(N * list N * list N)"
     shard = 250
-    rule = ("kinds: encode (to_bytes), parse (parse_frame on unstuffed bytes), stuff, unstuff, write (_write_frame on a fake "
+    rule = ("kinds: encode (to_bytes), parse (parse_frame on unstuffed bytes), rxwire (wire bytes of long / heavily escaped DATA frames through data_received), stuff, unstuff, write (_write_frame on a fake "
             "transport), crc (binascii.crc_hqx). Frames: all control-field values of every class, all 256 reset codes, payload "
             "lengths 0..200 in five content classes (zeros, all reserved bytes, ramp, random, reserved on the wire i.e. after randomisation); parse inputs: all 256 control bytes "
             "x body lengths, truncations, all 1- and 2-bit corruptions of short frames; non-trivial = not the empty input; "
@@ -121,6 +121,11 @@ class Check(PropertyCheck):
         for fr in frames:
             cases.append(("encode", fr))
             cases.append(("parse", ashref.encode(fr)))
+        # the receive path on WIRE bytes (stuffed, flag-terminated): parsing is the inverse of encoding for what is on the
+        # wire too, however many bytes of the frame had to be escaped
+        for fr in frames:
+            if fr[0] == "DATA" and (len(fr[4]) >= 100 or len(fr[4]) % 16 == 0):
+                cases.append(("rxwire", fr))
         for fr in frames[::7] + frames[:40]:
             cases.append(("write", (rng.random() < 0.3, fr)))
         # classification: all 256 control bytes with a valid CRC and body lengths 0..3, 257
@@ -175,6 +180,12 @@ class Check(PropertyCheck):
                     return {"frame": from_impl_frame(ash.parse_frame(bytes(x)))}
                 except Exception as e:  # the receive loop catches Exception and NAKs
                     return {"frame": None, "exc": type(e).__name__}
+            if kind == "rxwire":
+                import ashrun
+                p, rec = ashrun.new_protocol()
+                p._rx_seq = x[1]
+                p.data_received(ashref.wire(x))
+                return {"events": [list(e) if not isinstance(e[1], bytes) else [e[0], e[1].hex()] for e in ashrun.rx_events(rec.log)]}
             if kind == "stuff":
                 return {"bytes": bytes(ash.AshProtocol._stuff_bytes(bytes(x))).hex()}
             if kind == "unstuff":
@@ -195,7 +206,7 @@ class Check(PropertyCheck):
 
     def describe(self, case):
         kind, x = case
-        if kind == "encode":
+        if kind in ("encode", "rxwire"):
             return [kind, _jsonable(x)]
         if kind == "write":
             return [kind, x[0], _jsonable(x[1])]
@@ -203,6 +214,8 @@ class Check(PropertyCheck):
 
     def model_input(self, case):
         kind, x = case
+        if kind == "rxwire":
+            return None      # judged by the predicate (the byte-level receive path is C02's model)
         def bl(b):
             return "[" + ";".join(str(v) for v in b) + "]"
         if kind == "encode":
@@ -234,6 +247,13 @@ class Check(PropertyCheck):
         kind, x = case
         if "crash" in obs:
             return f"{kind}: unexpected exception {obs['crash']}"
+        if kind == "rxwire":
+            want = [["ack", (x[1] + 1) % 8], ["up", bytes(x[4]).hex()]]
+            if obs["events"] != want:
+                w = ashref.wire(x)
+                return (f"a correctly encoded DATA frame ({len(x[4])} data bytes, {len(w)} bytes on the wire) fed to the receive "
+                        f"path gave {obs['events'][:3]} instead of ACK + the payload")
+            return None
         if kind == "encode":
             want = ashref.encode(x)
             if bytes.fromhex(obs["bytes"]) != want:
